@@ -122,6 +122,9 @@ class BaseStandaloneNetworkServerImpl(AbstractNetworkServer, Generic[_T_AsyncSer
     @_utils.inherit_doc(AbstractNetworkServer)
     def shutdown(self, timeout: float | None = None) -> None:
         with self.__bootstrap_lock.get():
+            # Keep the event of the current run: a serve_forever() starting right after the lock is released
+            # must not make this call wait for that new run.
+            is_shutdown = self.__is_shutdown
             if (portal := self.__threads_portal) is not None and (server := self.__server) is not None:
 
                 async def do_shutdown_with_timeout(server: AbstractAsyncNetworkServer, timeout: float) -> None:
@@ -138,7 +141,7 @@ class BaseStandaloneNetworkServerImpl(AbstractNetworkServer, Generic[_T_AsyncSer
 
                 if timeout is not None:
                     timeout = elapsed.recompute_timeout(timeout)
-        self.__is_shutdown.wait(timeout)
+        is_shutdown.wait(timeout)
 
     def serve_forever(
         self,
@@ -178,8 +181,8 @@ class BaseStandaloneNetworkServerImpl(AbstractNetworkServer, Generic[_T_AsyncSer
             if not self.__is_shutdown.is_set():
                 raise ServerAlreadyRunning("Server is already running")
 
-            self.__is_shutdown.clear()
-            server_exit_stack.callback(self.__is_shutdown.set)
+            self.__is_shutdown = is_shutdown = _threading.Event()
+            server_exit_stack.callback(is_shutdown.set)
 
             def reset_values() -> None:
                 self.__threads_portal = None
